@@ -176,6 +176,18 @@ fn merge_back(outer: &mut Env, inner: &Env) {
     }
 }
 
+/// the key of a `$map` entry: strings and symbols by their text, anything else by its rendering
+pub fn map_key(v: &Val) -> String {
+    match v {
+        Val::Str(s) | Val::Sym(s) => s.clone(),
+        o => o.show(),
+    }
+}
+
+pub fn new_map() -> Val {
+    Val::Ctor("$map".into(), vec![], BTreeMap::new())
+}
+
 impl<'a> Evaluator<'a> {
     pub fn pat_match(&self, p: &syn::Pat, v: &Val, env: &mut Env) -> PatM {
         use syn::Pat;
@@ -601,7 +613,10 @@ impl<'a> Evaluator<'a> {
                 }
                 Ok(Val::List(v))
             }
-            _ => Err(format!("unsupported macro {}!", name)),
+            _ => match (self.call_hook)(self, &format!("{}!", name), &[]) {
+                Some(r) => r,
+                None => Err(format!("unsupported macro {}!", name)),
+            },
         }
     }
 
@@ -891,6 +906,23 @@ impl<'a> Evaluator<'a> {
                     None => Ok(Val::Opaque(format!("call {}", tok(&c.func)))),
                 }
             }
+            // std::mem::take(&mut place): yields the value and leaves the type's default behind
+            Expr::Call(c) if { let t = tok(&c.func); t == "std::mem::take" || t == "mem::take" || t == "core::mem::take" } && c.args.len() == 1 && self.place_of(&c.args[0]).is_some() => {
+                let place = self.place_of(&c.args[0]).unwrap();
+                let cur = self.eval(&c.args[0], env)?;
+                let dflt = match &cur {
+                    Val::List(_) => Val::List(vec![]),
+                    Val::Str(_) => Val::Str(String::new()),
+                    Val::Int { .. } => Val::int(0),
+                    Val::Bool(_) => Val::Bool(false),
+                    Val::Ctor(n, _, _) if n == "Some" || n == "None" => Val::none(),
+                    Val::Ctor(n, _, _) if n == "$map" => new_map(),
+                    o => return Err(format!("mem::take of {}", o.show())),
+                };
+                let t = place_get_mut(env, &place).ok_or_else(|| format!("cannot resolve place {}", tok(&c.args[0])))?;
+                *t = dflt;
+                Ok(cur)
+            }
             Expr::Call(c) => {
                 let name = crate::model::callee_name(c).unwrap_or_default();
                 let mut args = vec![];
@@ -982,6 +1014,74 @@ impl<'a> Evaluator<'a> {
                     _ => Ok(Val::Opaque(format!("call {}", tok(&c.func)))),
                 }
             }
+            // `$map` values (created by a rule's hook for BTreeMap::new / HashMap::new): entry chains and in-place updates
+            Expr::MethodCall(mc) if ["or_insert", "or_insert_with", "or_default", "and_modify"].contains(&mc.method.to_string().as_str()) && self.entry_chain(mc, env).is_some() => {
+                let (place, key_expr, ops) = self.entry_chain(mc, env).unwrap();
+                let key = map_key(&self.eval(&key_expr, env)?);
+                let mut cur: Option<Val> = match place_get_mut(env, &place) {
+                    Some(Val::Ctor(n, _, f)) if n == "$map" => f.get(&key).cloned(),
+                    _ => return Err("entry chain on a value that is not a map".into()),
+                };
+                for (m, args) in ops {
+                    match m.as_str() {
+                        "and_modify" => {
+                            if let (Some(v), Some(syn::Expr::Closure(cl))) = (cur.clone(), args.first()) {
+                                let mut e2 = env.clone();
+                                let pname = match cl.inputs.first() { Some(syn::Pat::Ident(pi)) => pi.ident.to_string(), _ => return Err("and_modify: closure parameter is not a name".into()) };
+                                e2.insert(pname.clone(), v);
+                                self.eval(&cl.body, &mut e2)?;
+                                cur = e2.get(&pname).cloned();
+                            }
+                        }
+                        "or_insert" => {
+                            if cur.is_none() {
+                                cur = Some(match args.first() { Some(a) => self.eval(a, env)?, None => Val::Unit });
+                            }
+                        }
+                        "or_insert_with" => {
+                            if cur.is_none() {
+                                cur = Some(match args.first() { Some(a) => self.apply_closure(a, &[], env)?, None => Val::Unit });
+                            }
+                        }
+                        "or_default" => {
+                            if cur.is_none() {
+                                cur = Some(Val::int(0));
+                            }
+                        }
+                        _ => {}
+                    }
+                }
+                if let (Some(v), Some(Val::Ctor(_, _, f))) = (cur.clone(), place_get_mut(env, &place)) {
+                    f.insert(key, v);
+                }
+                Ok(cur.unwrap_or(Val::Unit))
+            }
+            Expr::MethodCall(mc) if ["insert", "remove", "clear"].contains(&mc.method.to_string().as_str())
+                && self.place_of(&mc.receiver).is_some()
+                && matches!(self.eval(&mc.receiver, env), Ok(Val::Ctor(n, _, _)) if n == "$map") =>
+            {
+                let place = self.place_of(&mc.receiver).unwrap();
+                let mut args = vec![];
+                for a in mc.args.iter() {
+                    args.push(self.eval(a, env)?);
+                }
+                let Some(Val::Ctor(_, _, f)) = place_get_mut(env, &place) else { return Err("map place lost".into()) };
+                match mc.method.to_string().as_str() {
+                    "insert" => {
+                        let k = map_key(args.first().ok_or("insert without key")?);
+                        let old = f.insert(k, args.get(1).cloned().unwrap_or(Val::Unit));
+                        Ok(old.map(Val::some).unwrap_or(Val::none()))
+                    }
+                    "remove" => {
+                        let k = map_key(args.first().ok_or("remove without key")?);
+                        Ok(f.remove(&k).map(Val::some).unwrap_or(Val::none()))
+                    }
+                    _ => {
+                        f.clear();
+                        Ok(Val::Unit)
+                    }
+                }
+            }
             Expr::MethodCall(mc) if ["push", "append", "extend", "insert", "remove", "push_str", "clear", "truncate", "pop", "sort", "reverse", "retain", "dedup", "swap", "drain"].contains(&mc.method.to_string().as_str())
                 && self.place_of(&mc.receiver).is_some()
                 && matches!(self.eval(&mc.receiver, env), Ok(Val::List(_)) | Ok(Val::Str(_))) =>
@@ -1037,6 +1137,19 @@ impl<'a> Evaluator<'a> {
                         let d: Vec<Val> = l.drain(..).collect();
                         Ok(Val::List(d))
                     }
+                    (Val::List(l), "dedup") => {
+                        // Vec::dedup removes *consecutive* equal elements only
+                        l.dedup();
+                        Ok(Val::Unit)
+                    }
+                    (Val::List(l), "sort") if l.iter().all(|v| matches!(v, Val::Str(_))) || l.iter().all(|v| matches!(v, Val::Int { input: false, .. })) => {
+                        l.sort_by(|a, b| match (a, b) {
+                            (Val::Str(x), Val::Str(y)) => x.cmp(y),
+                            (Val::Int { v: x, .. }, Val::Int { v: y, .. }) => x.cmp(y),
+                            _ => std::cmp::Ordering::Equal,
+                        });
+                        Ok(Val::Unit)
+                    }
                     (Val::Str(st), "push") => match args.get(0) {
                         Some(Val::Char(c)) => {
                             st.push(*c);
@@ -1078,6 +1191,23 @@ impl<'a> Evaluator<'a> {
                     Val::Ctor(n, p, _) if n == "Some" => p.first().cloned(),
                     _ => None,
                 };
+                if let Val::Ctor(n, _, f) = &recv {
+                    if n == "$map" {
+                        match name.as_str() {
+                            "get" | "contains_key" if mc.args.len() == 1 => {
+                                let k = map_key(&self.eval(&mc.args[0], env)?);
+                                return Ok(if name == "get" { f.get(&k).cloned().map(Val::some).unwrap_or(Val::none()) } else { Val::Bool(f.contains_key(&k)) });
+                            }
+                            "len" => return Ok(Val::int(f.len() as i128)),
+                            "is_empty" => return Ok(Val::Bool(f.is_empty())),
+                            "iter" | "into_iter" | "iter_mut" => return Ok(Val::List(f.iter().map(|(k, v)| Val::Tuple(vec![Val::Str(k.clone()), v.clone()])).collect())),
+                            "values" | "into_values" | "values_mut" => return Ok(Val::List(f.values().cloned().collect())),
+                            "keys" | "into_keys" => return Ok(Val::List(f.keys().map(|k| Val::Str(k.clone())).collect())),
+                            "clone" => return Ok(recv.clone()),
+                            _ => {}
+                        }
+                    }
+                }
                 if let Val::List(items) = &recv {
                     match name.as_str() {
                         "iter" | "into_iter" | "iter_mut" | "clone" | "to_owned" | "as_ref" | "as_slice" | "to_vec" => return Ok(recv.clone()),
@@ -1621,6 +1751,7 @@ impl<'a> Evaluator<'a> {
                 let base = self.eval(&ix.expr, env)?;
                 let idx = self.eval(&ix.index, env)?;
                 match (base, idx) {
+                    (Val::Ctor(n, _, f), k) if n == "$map" => f.get(&map_key(&k)).cloned().ok_or_else(|| format!("map index: key {} not present (the code would panic here)", k.show())),
                     (Val::List(l), Val::Int { v, .. }) => l.get(v as usize).cloned().ok_or_else(|| "index out of range".to_string()),
                     (b, i) => Err(format!("index {}[{}]", b.show(), i.show())),
                 }
@@ -1757,6 +1888,32 @@ impl<'a> Evaluator<'a> {
     }
 
     /// `x`, `x.f`, `x.0.1` as a place (variable + field path)
+    /// `<place>.entry(k)[.and_modify(..)][.or_insert(..)|.or_insert_with(..)|.or_default()]` on a `$map` place
+    fn entry_chain(&self, mc: &syn::ExprMethodCall, env: &mut Env) -> Option<((String, Vec<String>), syn::Expr, Vec<(String, Vec<syn::Expr>)>)> {
+        let mut ops: Vec<(String, Vec<syn::Expr>)> = vec![];
+        let mut cur: &syn::ExprMethodCall = mc;
+        loop {
+            let m = cur.method.to_string();
+            if m == "entry" {
+                let place = self.place_of(&cur.receiver)?;
+                let mut e2 = env.clone();
+                if !matches!(self.eval(&cur.receiver, &mut e2), Ok(Val::Ctor(n, _, _)) if n == "$map") {
+                    return None;
+                }
+                ops.reverse();
+                return Some((place, cur.args.first()?.clone(), ops));
+            }
+            if !["or_insert", "or_insert_with", "or_default", "and_modify"].contains(&m.as_str()) {
+                return None;
+            }
+            ops.push((m, cur.args.iter().cloned().collect()));
+            match &*cur.receiver {
+                syn::Expr::MethodCall(inner) => cur = inner,
+                _ => return None,
+            }
+        }
+    }
+
     pub fn place_of(&self, e: &syn::Expr) -> Option<(String, Vec<String>)> {
         match e {
             syn::Expr::Path(p) if p.path.segments.len() == 1 => Some((p.path.segments[0].ident.to_string(), vec![])),
